@@ -350,6 +350,13 @@ class Walker(object):
             if isinstance(v, Opaque) or v is UNINIT:
                 return Opaque("%s[?]" % getattr(v, "name", "uninit")), changed, v
             raise WalkError("index on %r" % (v,))
+        if p[0] == "view":
+            # mutable window [s, s+n) of a known array (created by indexing with a constant range)
+            if isinstance(v, Agg) and v.kind == ("array",) and p[1] + p[2] <= len(v.fields):
+                sub = Agg(("array",), 0, list(v.fields[p[1]:p[1] + p[2]]))
+                r, ch, nsub = self._load(state, sub, proj, i + 1)
+                return r, changed, v
+            raise WalkError("view on %r" % (v,))
         if p[0] == "ss":
             # subslice: keep as view object
             return Opaque("subslice"), changed, v
@@ -398,6 +405,15 @@ class Walker(object):
                 d[p[1]] = self._store(state, d.get(p[1], UNINIT), proj, i + 1, value)
                 return PartialAgg(d)
             raise WalkError("store field into %r" % (v,))
+        if p[0] == "view":
+            if isinstance(v, Agg) and v.kind == ("array",) and p[1] + p[2] <= len(v.fields):
+                sub = Agg(("array",), 0, list(v.fields[p[1]:p[1] + p[2]]))
+                nsub = self._store(state, sub, proj, i + 1, value)
+                if isinstance(nsub, Agg) and len(nsub.fields) == p[2]:
+                    fs = list(v.fields)
+                    fs[p[1]:p[1] + p[2]] = list(nsub.fields)
+                    return Agg(v.kind, v.variant, fs)
+            raise WalkError("store through view into %r" % (v,))
         if p[0] == "v":
             if isinstance(v, Agg) and v.variant != p[1]:
                 raise WalkError("store through downcast mismatch")
